@@ -166,12 +166,24 @@ def drive(path, ops, nh=3, h1=None, h2=b"", b0=b"", init_bytes=None):
         if kind == "open":
             m = o[2]
             before = open(path, "rb").read() if all(h is None or h.closed for h in hs) else None
-            if hs[i] is None:
-                hs[i] = UKVFile(path, m)
-                fresh = True
-            else:
-                fresh = hs[i].closed
-                hs[i].open(m)
+            try:
+                if hs[i] is None:
+                    hs[i] = UKVFile(path, m)
+                    fresh = True
+                else:
+                    fresh = hs[i].closed
+                    hs[i].open(m)
+            except Exception as e:              # opening a library must not fail, whatever a crash left behind
+                viol.append((f"C02:open:raised:{type(e).__name__}",
+                             f"open({m}) of handle {i} raised {type(e).__name__}: {str(e)[:80]} (file of {os.path.getsize(path)} bytes)"))
+                try:
+                    if hs[i] is not None and not hs[i].closed:
+                        hs[i].close()
+                except Exception:
+                    pass
+                hs[i] = None
+                cops.append(op_coq(o)); res.append(f"(ROther (* {type(e).__name__} *))")
+                continue
             if fresh:
                 view[i] = set(model)
                 if m == "a":
